@@ -293,6 +293,13 @@ package server
 //@   assert-at call os.Remove : ghost_refused == 1 && ghost_badformat == 1 && arg0 == fpjoin2(p, blob.Name())
 //@   assert-at call os.RemoveAll : false
 //@   assert-at call os.Rename : false
+// (coverage extension) the name GetBlobsPath judges is the entry's own name ('-' -> ':'), so the
+// direct removal of an entry follows the refusal of THAT entry's name; and the error whose kind is
+// tested is the one GetBlobsPath returned.
+//@   assert-at call GetBlobsPath #2 : arg0 == sreplaceall(blob.Name(), "-", ":")
+//@   assert-at call PruneLayers : false
+//@   assert-at call PruneDirectory : false
+//@   assert-at call (*Manifest).Remove : false
 
 // PruneDirectory removes a path only if Lstat says it is a directory and not a symlink, all
 // entries were visited without error, and a listing read AFTER that is empty.
@@ -812,11 +819,11 @@ package server
 //@   assert-at call deleteUnusedLayers : false
 //@   assert-at call PruneLayers : false
 //@   assert-at call PruneDirectory : false
-// (safe.nilmap at routes.go:850 `m.Options[k] = v` is NOT claimed here: it fails - see props/C04.json
-// not_decided, suspected defect: show with request options on a model without a params layer; and
-// safe.index at :872 needs tensors.Items() to be a pure accessor, which belongs to fs/ggml)
+// (safe.nilmap `m.Options[k] = v` failed on the pinned tree: show with request options on a model without a
+// params layer panicked - genuine defect, fixed; the obligation is claimed since. safe.index at the
+// tensors.Items() loop needs Items() to be a pure accessor, which belongs to fs/ggml: not claimed)
 //@ func GetModelInfo
-//@   opt safe slice,div,typeassert,makeslice,shift
+//@   opt safe slice,div,typeassert,makeslice,shift,nilmap
 //@   ghost-at entry : ghost_canon := 0
 //@   ghost-at after call getExistingName #1 : ghost_canon := ite(result.1 == nil, 1, 0)
 //@   assert-at call GetModel : ghost_canon == 1
